@@ -283,7 +283,8 @@ public:
     _vCutThreshold = 1000;
     _gamma         = 1.5;
     _alpha   = numEdges * pow(numHosts, _gamma - 1.0) / pow(numNodes, _gamma);
-    _neRatio = (double)numNodes / (double)numEdges;
+    // a graph without edges must not turn every score into NaN
+    _neRatio = numEdges ? (double)numNodes / (double)numEdges : 0.0;
   }
 
   template <typename EdgeTy>
@@ -426,7 +427,8 @@ public:
     _vCutThreshold = 1000;
     _gamma         = 1.5;
     _alpha   = numEdges * pow(numHosts, _gamma - 1.0) / pow(numNodes, _gamma);
-    _neRatio = (double)numNodes / (double)numEdges;
+    // a graph without edges must not turn every score into NaN
+    _neRatio = numEdges ? (double)numNodes / (double)numEdges : 0.0;
   }
 
   template <typename EdgeTy>
@@ -599,7 +601,8 @@ public:
     _vCutThreshold = 1000;
     _gamma         = 1.5;
     _alpha   = numEdges * pow(numHosts, _gamma - 1.0) / pow(numNodes, _gamma);
-    _neRatio = (double)numNodes / (double)numEdges;
+    // a graph without edges must not turn every score into NaN
+    _neRatio = numEdges ? (double)numNodes / (double)numEdges : 0.0;
     // CVC things
     factorizeHosts();
   }
@@ -793,7 +796,8 @@ public:
     _vCutThreshold = 1000;
     _gamma         = 1.5;
     _alpha   = numEdges * pow(numHosts, _gamma - 1.0) / pow(numNodes, _gamma);
-    _neRatio = (double)numNodes / (double)numEdges;
+    // a graph without edges must not turn every score into NaN
+    _neRatio = numEdges ? (double)numNodes / (double)numEdges : 0.0;
     // CVC things
     factorizeHosts();
   }
